@@ -62,9 +62,9 @@ def build_model(name, dt, continuous=False):
 
 
 KINDS = {
-    "combined": ["prog_start", "budget", "capacity", "coverage", "budget_scalar_insert", "capacity_scalar_insert", "coverage_scalar_insert", "capacity_continuous", "budget_continuous", "stop", "extend_scen:vr:linear", "extend_scen:vr:previous", "extend_scen:pb:linear"] + [f"scen:{t}:{i}" for t in ("vr", "pb", "pa", "br", "age") for i in ("linear", "previous")] + [f"scen2:{t}:{i}" for t in ("pb", "vr") for i in ("linear", "previous")] + ["extend"],
-    "agg": [f"scen:{t}:{i}" for t in ("mix", "rec") for i in ("linear", "previous")] + [f"scen2:{t}:{i}" for t in ("inf", "foi") for i in ("linear", "previous")] + ["extend"],
-    "state": ["prog_start", "budget", "capacity", "coverage", "budget_scalar_insert", "stop", "extend_scen:p1:linear", "extend_scen:drv:linear"] + [f"scen:{t}:{i}" for t in ("p1", "drv", "p2") for i in ("linear", "previous")] + ["extend"],
+    "combined": ["prog_start", "budget", "capacity", "coverage", "budget_scalar_insert", "capacity_scalar_insert", "coverage_scalar_insert", "capacity_continuous", "budget_continuous", "stop", "extend_scen:vr:linear", "extend_scen:vr:previous", "extend_scen:pb:linear"] + [f"scen:{t}:{i}" for t in ("vr", "pb", "pa", "br", "age") for i in ("linear", "previous")] + [f"scen2:{t}:{i}" for t in ("pb", "vr") for i in ("linear", "previous")] + [f"scen_chain:{t}:{i}" for t in ("vr", "pb") for i in ("linear", "previous")] + ["extend"],
+    "agg": [f"scen:{t}:{i}" for t in ("mix", "rec") for i in ("linear", "previous")] + [f"scen2:{t}:{i}" for t in ("inf", "foi") for i in ("linear", "previous")] + [f"scen_chain:{t}:{i}" for t in ("inf", "foi") for i in ("linear", "previous")] + ["extend"],
+    "state": ["prog_start", "budget", "capacity", "coverage", "budget_scalar_insert", "stop", "extend_scen:p1:linear", "extend_scen:drv:linear"] + [f"scen:{t}:{i}" for t in ("p1", "drv", "p2") for i in ("linear", "previous")] + [f"scen_chain:{t}:{i}" for t in ("p1", "drv") for i in ("linear", "previous")] + ["extend"],
 }
 
 
@@ -207,6 +207,34 @@ def run_case(case):
             if vs:
                 break
         return dict(states=states, transitions=trans, nontrivial=True, violations=vs[:3], counters=dict(pairs=trans))
+
+    if kind.startswith("scen_chain:"):
+        # a scenario on the SAME parameter and population is already in force from an earlier year (the paired baseline contains it); the intervention
+        # is a second scenario applied on top of it from Y: nothing may change before Y (in particular the first scenario stays in force on [YA, Y))
+        _, target, interp = kind.split(":")
+        pop = w.parset.pop_names[0]
+        v1, v2 = dict(pb=(0.9, 0.2), vr=(0.8, 0.1), inf=(0.7, 0.05), foi=(0.6, 0.1), drv=(0.6, 0.01), p1=(0.9, 0.05))[target]
+        YA = float(t[1])
+        sa = at.ParameterScenario(name="sa", interpolation=interp)
+        sa.add(target, pop, [YA, float(t[-1]) + 1.0], [v1, v2])
+        psA = sa.get_parset(w.parset, w.P)
+        base = w.P.run_sim(psA, store_results=False)
+        a = arrays(base)
+        for Y in ys(t, dt):
+            if Y <= YA:
+                continue
+            sb = at.ParameterScenario(name="sb", interpolation=interp)
+            sb.add(target, pop, [Y, Y + 1.0], [v2, v1])
+            r2 = w.P.run_sim(sb.get_parset(psA, w.P), store_results=False)
+            b2 = arrays(r2)
+            v, n = compare_before(a, b2, t, Y, f"{lab0} first scenario from {YA!r}, second from Y={Y!r}", exact=False)
+            eff += differs(a, b2)
+            vs += v
+            states += n
+            trans += 1
+            if len(vs) >= 3:
+                break
+        return dict(states=states, transitions=trans, nontrivial=eff > 0, violations=vs[:3], counters=dict(pairs=trans, pairs_with_effect=eff))
 
     if kind.startswith("scen2:"):
         # the same parameter is overwritten in two populations with different first years: the intervention is the SECOND population's overwrite,
